@@ -167,9 +167,14 @@ impl<'a> StmtIterator<'a> {
                     self.inner_state = StmtIteratorState::EndIterateInner(loop_state.take())
                 }
                 StmtIteratorState::StartLoop(loop_state) => {
-                    ctx.push_frame();
-                    ctx.set(loop_state.variable, 0);
-                    self.inner_state = StmtIteratorState::StartIterateInner(loop_state.take());
+                    if loop_state.max <= 0 {
+                        // A non-positive bound means the body is not run at all
+                        self.inner_state = StmtIteratorState::Iterate;
+                    } else {
+                        ctx.push_frame();
+                        ctx.set(loop_state.variable, 0);
+                        self.inner_state = StmtIteratorState::StartIterateInner(loop_state.take());
+                    }
                 }
                 StmtIteratorState::StartIterateInner(loop_state) => {
                     let loop_state = loop_state.take();
